@@ -5,9 +5,11 @@
    an optional sign and decimal digits without any bound; [tparse]/[b64dec]
    are the oracle functions for time.Time's UnmarshalJSON and base64
    (encoding/json), arbitrary in every theorem below. *)
+From Coq Require Import Lia.
 From JV Require Import Model.Base Model.GoTime Gen.TypeGo Model.Schema Model.Value
   Model.Strconv Model.Json Model.Attr Model.SoftRes Model.Wrapper Model.Resource Model.Unmarshal
-  Proofs.StrconvFacts Proofs.SoftFacts Proofs.WrapperFacts Proofs.C06Facts Proofs.C06Resource Proofs.C05Mixed.
+  Model.Marshal Proofs.StrconvFacts Proofs.SoftFacts Proofs.WrapperFacts Proofs.C06Facts Proofs.C06Resource
+  Proofs.C05Mixed Proofs.C14Facts Proofs.C01Facts Proofs.C01Full Proofs.C06Remarshal.
 
 (* integers: accepted only within the declared width and signedness, stored unchanged *)
 Theorem C06_int : forall e a lit v,
@@ -144,9 +146,66 @@ Theorem C06_resource_values_wrapped : forall e s j r d,
 Proof. exact accepted_resource_values_wrapped. Qed.
 Print Assumptions C06_resource_values_wrapped.
 
-(* NOT PROVED here (correspondence + oracle): that re-marshaling reproduces
-   the payload's values as the same JSON values (decided by an independent
-   denotation oracle on the Go side). *)
+(* Re-marshaling (soft types): the resource an accepted payload gives is
+   marshaled, with every field selected and relationship data requested, into
+   JSON that is accepted again and decodes to the same type, the same id, the
+   same value for every attribute ([same_value]: integers exactly, times as
+   instants, nil-ness kept) and the same related IDs for every relationship --
+   i.e. the re-marshaled members are the same JSON values as the payload's,
+   "same" meaning: they decode alike.  [env_ok_value]: the standard-library
+   round trips (time.Format/Parse, base64) hold on the stored values -- oracle
+   hypotheses, as in C01.  For struct-backed types: C01_wrapped_resource_roundtrip
+   composed with C06_resource_values_wrapped by the same argument (not restated);
+   the byte-level comparison is the Go denotation oracle's. *)
+Theorem C06_remarshal : forall e s j r prepath reldata want,
+  sch_wrapped s = [] ->
+  (forall k, dec_resske j = Some k -> wf_res_type (get_type (sch_schema s) (k_type k))) ->
+  unmarshal_resource e s j = Ok (RSoft r) ->
+  let t := s_type r in
+  (forall n a, lookup n (tattrs t) = Some a -> env_ok_value e (soft_get r n)) ->
+  lookup (tname t) reldata = Some want ->
+  (forall n, In n (map fst (trels t)) -> In n want) ->
+  exists j' r',
+    marshal_resource e (RSoft r) prepath (soft_fields t) reldata = Ok j' /\
+    unmarshal_resource e s j' = Ok (RSoft r') /\
+    s_type r' = t /\
+    soft_get r' "id" = soft_get r "id" /\
+    (forall n a, lookup n (tattrs t) = Some a -> same_value (soft_get r n) (soft_get r' n)) /\
+    (forall n x, lookup n (trels t) = Some x -> same_rel (soft_get r n) (soft_get r' n)).
+Proof. exact remarshal_accepted. Qed.
+Print Assumptions C06_remarshal.
+
+(* non-vacuity of C06_remarshal: an accepted payload meeting its hypotheses *)
+Definition c06_type : type :=
+  mkType "t" [("n", mkAttr "n" 3 false); ("s", mkAttr "s" 1 true)] [("r", mkRel "t" "r" true "t" "" false)].
+Definition c06_sch : sch := mkSch (mkSchema [c06_type]) [].
+Definition c06_payload : json :=
+  JObj [("id", JStr "i1" false); ("type", JStr "t" false);
+        ("attributes", JObj [("n", JNum "-128"); ("s", JNull)]);
+        ("relationships", JObj [("r", JObj [("data", JObj [("id", JStr "i2" false); ("type", JStr "t" false)])])])].
+Definition c06_env : stdenv := tbl_env [] [] [] [].
+Lemma c06_type_wf : wf_res_type c06_type.
+Proof.
+  unfold wf_res_type, wf_type, wf_attrs, wf_rels, c06_type. cbn [tattrs trels map fst].
+  split; [split; split|].
+  - repeat constructor; cbn; intuition discriminate.
+  - intros k a [H|[H|[]]]; injection H as <- <-; cbn; (split; [reflexivity|]); (split; [discriminate|]); unfold valid_code; lia.
+  - repeat constructor; cbn; intuition discriminate.
+  - intros k a [H|[]]; injection H as <- <-; cbn; (split; [reflexivity|]); split; discriminate.
+  - split; [|split]; cbn; [intros n [<-|[<-|[]]] [H|[]]; discriminate H|intuition discriminate|intuition discriminate].
+Qed.
+Example c06_remarshal_example :
+  exists r, unmarshal_resource c06_env c06_sch c06_payload = Ok (RSoft r) /\
+    (forall k, dec_resske c06_payload = Some k -> wf_res_type (get_type (sch_schema c06_sch) (k_type k))) /\
+    (forall n a, lookup n (tattrs (s_type r)) = Some a -> env_ok_value c06_env (soft_get r n)) /\
+    lookup (tname (s_type r)) [("t", ["r"])] = Some ["r"].
+Proof.
+  eexists. split; [vm_compute; reflexivity|]. split.
+  - intros k Hk. vm_compute in Hk. injection Hk as <-. exact c06_type_wf.
+  - split; [|reflexivity]. intros n a. cbn [s_type tattrs lookup].
+    destruct (String.eqb n "n") eqn:E1; [apply String.eqb_eq in E1; subst n; intros _; exact I|].
+    destruct (String.eqb n "s") eqn:E2; [apply String.eqb_eq in E2; subst n; intros _; exact I|]. discriminate.
+Qed.
 
 (* non-vacuity and the boundary cases the property names *)
 Example c06_int8_edges : forall e,
